@@ -41,6 +41,7 @@ def run(tier):
         res = ownrules.analyse(mod, rep)
         ownrules.view_rules(rep, mod, res, "D=%d" % D)
         ownrules.viewflat_rule(rep, mod, res, "D=%d" % D, D, "R05.viewflat")
+        ownrules.viewflat_control(rep, mod, D, "R05.viewflat")
     tu = os.path.join(wd, "w05.cpp")
     with open(tu, "w") as fh:
         fh.write(W05)
